@@ -7,6 +7,7 @@
 import Lemmas.WrapAppend
 import Props.C09
 import Props.C05
+import Props.C01
 namespace TW.C14
 
 /-- splitting the joined lines at the line ending gives the lines back, when no line contains a
@@ -101,5 +102,110 @@ theorem stable_of_fits_firstfit (env : Env) (hsp : env.cw SP = 1) (mo : MinimaOr
       simp only [Option.map_some, Option.some.injEq]
       rw [TW.C05.one_line_render env o l n frs c2 hl hnp c1, hindent, TW.C05.trimEndSp_id l hts]
       rfl
+
+/-- every descriptor of the paragraph loop comes, up to its offset, from one `single` call -/
+theorem wrapParas_forall (P : LineD → Prop) (hshift : ∀ d off, P d → P { d with start := d.start + off })
+    (elen : Nat) (single : Text → Nat → Option (List LineD))
+    (hs : ∀ p n ls, single p n = some ls → ∀ d ∈ ls, P d)
+    (paras : List Text) (off n : Nat) (ds : List LineD)
+    (h : wrapParas elen single paras off n = some ds) : ∀ d ∈ ds, P d := by
+  induction paras generalizing off n ds with
+  | nil => simp only [wrapParas, Option.some.injEq] at h; subst h; intro d hd; simp at hd
+  | cons p ps ih =>
+    simp only [wrapParas] at h
+    split at h
+    · simp at h
+    · next ls hls =>
+      split at h
+      · next rest hrest =>
+        simp only [Option.some.injEq] at h; subst h
+        intro d hd
+        rcases List.mem_append.mp hd with hd | hd
+        · obtain ⟨d0, hd0, rfl⟩ := List.mem_map.mp hd
+          exact hshift d0 off (hs p n ls hls d0 hd0)
+        · exact ih _ _ rest hrest d hd
+      · simp at h
+
+theorem specLines_pen_indent (o : Opts) (groups : List (List Word)) (idx n : Nat)
+    (hnp : ∀ g ∈ groups, NoPen g) (hii : o.initialIndent = []) (hsi : o.subsequentIndent = []) :
+    ∀ d ∈ specLines o groups idx n, d.pen = [] ∧ d.indent = [] := by
+  induction groups generalizing idx n with
+  | nil => intro d hd; simp [specLines] at hd
+  | cons g gs ih =>
+    intro d hd
+    have hind : (if n = 0 then o.initialIndent else o.subsequentIndent) = [] := by split <;> assumption
+    simp only [specLines] at hd
+    split at hd
+    · rcases List.mem_cons.mp hd with rfl | hd
+      · exact ⟨rfl, hind⟩
+      · exact ih _ _ (fun x hx => hnp x (by simp [hx])) d hd
+    · next last hl =>
+      rcases List.mem_cons.mp hd with rfl | hd
+      · exact ⟨hnp g (by simp) last (List.mem_of_getLast? hl), hind⟩
+      · exact ih _ _ (fun x hx => hnp x (by simp [hx])) d hd
+
+/-- with empty indents, the ASCII separator and a built-in splitter every line `wrap` returns is
+    a bare slice of the text that does not end in a space -/
+theorem wrap_lines_bare (env : Env) (mo : MinimaOracle Int) (hmo : MoShape mo) (o : Opts)
+    (hsep : o.sep = .ascii) (hb : Builtin o.splitter)
+    (hii : o.initialIndent = []) (hsi : o.subsequentIndent = [])
+    (t : Text) (ls : List Text) (hw : wrap env mo o t = some ls) : ∀ l ∈ ls, l.getLast? ≠ some SP := by
+  unfold wrap at hw
+  cases hd : wrapD env mo o t with
+  | none => simp [hd] at hw
+  | some ds =>
+    simp only [hd, Option.map_some, Option.some.injEq] at hw
+    subst hw
+    unfold wrapD at hd
+    have hall := wrapParas_forall (fun d => d.slice.getLast? ≠ some SP ∧ d.pen = [] ∧ d.indent = [])
+      (fun d off h => h) _ (wrapSingleLine env mo o)
+      (fun p n ls hl d hdm => by
+        refine ⟨TW.C01.ascii_no_trailing_space env mo hmo o hsep hb p n ls hl d hdm, ?_⟩
+        -- penalties and indents
+        unfold wrapSingleLine at hl
+        by_cases hc : blen p < o.width ∧ (if n = 0 then o.initialIndent else o.subsequentIndent).isEmpty = true
+        · rw [if_pos hc] at hl
+          simp only [Option.some.injEq] at hl; subst hl
+          simp only [List.mem_singleton] at hdm; subst hdm
+          exact ⟨rfl, rfl⟩
+        · rw [if_neg hc] at hl
+          unfold wrapSingleLineSlow at hl
+          simp only at hl
+          split at hl
+          · simp at hl
+          · next words hp =>
+            obtain ⟨c1, _⟩ := pipeline_contig env o (builtin_inRange _ _ hb) p _ words hp
+            have hnp := pipeline_noPen env o hb p _ words hp
+            split at hl
+            · simp at hl
+            · next groups hg =>
+              obtain ⟨p1, _, _, _⟩ := wrapAlg_partition mo hmo o.alg words _ groups hg
+              rw [reassemble_eq_spec o p [] groups 0 n (by simp [p1, c1]) rfl] at hl
+              simp only [Option.some.injEq] at hl; subst hl
+              exact specLines_pen_indent o groups 0 n
+                (fun g hg w hw => hnp w (by rw [← p1]; exact List.mem_flatten.mpr ⟨g, hg, hw⟩)) hii hsi d hdm)
+      _ 0 0 ds hd
+    intro l hl
+    obtain ⟨d, hdm, rfl⟩ := List.mem_map.mp hl
+    obtain ⟨h1, h2, h3⟩ := hall d hdm
+    simp only [LineD.render, h2, h3, List.nil_append, List.append_nil]
+    exact h1
+
+/-- **fill is idempotent** — first-fit, ASCII separator, built-in splitter, empty indents — when
+    the lines of the first result are ESC-free, contain no line feed and fit the width. (That no
+    line ends in a space is proved, not assumed.) -/
+-- @audit TW.C14.fill_idempotent_firstfit_ascii
+theorem fill_idempotent_firstfit_ascii (env : Env) (hsp : env.cw SP = 1) (mo : MinimaOracle Int)
+    (hmo : MoShape mo) (o : Opts) (hb : Builtin o.splitter) (halg : o.alg = .firstFit)
+    (hsep : o.sep = .ascii) (hii : o.initialIndent = []) (hsi : o.subsequentIndent = [])
+    (t : Text) (ls : List Text) (hw : wrap env mo o t = some ls)
+    (hesc : ∀ l ∈ ls, ∀ c ∈ l, c ≠ ESC) (hno : ∀ l ∈ ls, LF ∉ l)
+    (hfit : ∀ l ∈ ls, displayWidth env.cw l ≤ o.width) :
+    ∃ f, fill env mo o t = some f ∧ fill env mo o f = some f := by
+  have hne := TW.C09.wrap_nonempty env mo hmo o (builtin_inRange _ _ hb) t ls hw
+  have hbare := wrap_lines_bare env mo hmo o hsep hb hii hsi t ls hw
+  obtain ⟨h1, h2⟩ := fill_idempotent_of_stable env mo o t ls hw hne hno
+    (fun l hl => stable_of_fits_firstfit env hsp mo o hb halg hsep hii hsi l (hesc l hl) (hfit l hl) (hbare l hl))
+  exact ⟨_, h2, h1⟩
 
 end TW.C14
